@@ -10,6 +10,7 @@ import (
 	"fmt"
 	"net/http"
 	"net/http/httptest"
+	"runtime/debug"
 	"strings"
 	"time"
 
@@ -54,7 +55,10 @@ func (env *oapiEnv) do(method, path string, body []byte, wd time.Duration) httpR
 	}
 	rec := httptest.NewRecorder()
 	ch := make(chan string, 1)
-	go func() { ch <- safely(func() { env.e.ServeHTTP(rec, req) }) }()
+	go func() {
+		debug.SetPanicOnFault(true) // a read of unmapped swap memory must be an observable panic
+		ch <- safely(func() { env.e.ServeHTTP(rec, req) })
+	}()
 	select {
 	case pan := <-ch:
 		if pan != "" {
@@ -497,6 +501,36 @@ func runC14(h *H) {
 		// the stored-reference compute is also judged against the documented effective inputs
 		h.emit(h.line("C14", "oapi").oreq(rs).Bar().oresp(rs.stats, stored))
 	}
+	runConcCompute(h, "C14")
 }
 
 var _ = http.StatusOK
+
+// C02, API level: accepted requests without negative trust values yield scores that sum to 1 —
+// including runs cut off by an iteration limit and warm starts from raw (unnormalised) initial trust.
+func runOapiC02(h *H) {
+	g := h.g
+	env := newOapiEnv()
+	n := h.budget(300, 6000)
+	wd := 20 * time.Second
+	for k := 0; k < n; k++ {
+		r := g.validOReq(false)
+		switch g.intn(4) {
+		case 0: // raw-weight initial trust with an iteration cut-off
+			r.it = g.inlineVector(r.lt.size)
+			r.max = ip(g.intn(4) + 1)
+			g.count("api:rawinitial+cutoff")
+		case 1: // alpha = 0 keeps the initial mass forever
+			r.it = g.inlineVector(r.lt.size)
+			r.alpha = fp(0)
+			r.max = ip(g.intn(20) + 1)
+			g.count("api:alpha0")
+		case 2: // empty initial trust (zero vector -> uniform)
+			r.it = &vRef{kind: "inline", size: r.lt.size}
+			r.max = ip(g.intn(3) + 1)
+			g.count("api:emptyinitial")
+		}
+		res := env.compute(r, wd)
+		h.emit(h.line("C02", "oapi").oreq(r).Bar().oresp(r.stats, res))
+	}
+}
